@@ -168,6 +168,11 @@ def main(ctx, t0):
     core.deterministic_ids(0)
     searches = [(k, c, "reduced") for k in spaces.KINDS for c in ("default", "limit", "tau0", "tau2b")]
     stats, a2 = e2.explore(searches, 2, ctx, chunk=16, invs=("I6",))
+    # option toggling on one pair of long-lived rating objects, depth 3 (thorough: 4): see e2.ops_toggle
+    tog = [(k, c, "toggle") for k in spaces.KINDS for c in ("default", "limit", "tau0")]
+    stats_t, a2t = e2.explore(tog, 4 if ctx.thorough else 3, ctx, chunk=32, invs=("I6",))
+    stats.update(stats_t)
+    a2.merge(a2t)
     if ctx.thorough:  # deeper histories over the small alphabet (depth 4: every state reachable by three calls is expanded)
         deep = [(k, c, "small") for (k, c, _) in searches]
         stats_d, a2d = e2.explore(deep, 4, ctx, chunk=64, invs=("I6",))
